@@ -6,8 +6,9 @@ from cxxheaderparser import types as T
 from cxxheaderparser.errors import CxxParseError
 from cxxheaderparser.simple import parse_string
 
+TECHNIQUE = 'Lean 4: theorems on the two doc-comment scans (which comment tokens are returned/removed, for every buffer), non-documentation comments give no text, kernel-decided keep set; attachment per declaration kind decided by correspondence and a documented-program oracle (not a theorem)'
 LEAN_TARGET = "CxxModel.Props.C11"
-THEOREMS = ["Cxx.C11_doxScan_partition", "Cxx.C11_doxScan_comments_after_last_newline", "Cxx.C11_doxAfter_partition", "Cxx.C11_extract_none_without_doc",
+THEOREMS = ["Cxx.C11_doxScan_partition", "Cxx.C11_doxScan_comments_after_last_newline", "Cxx.C11_doxAfter_partition", "Cxx.C11_extract_none_without_doc", "Cxx.C11_extract_lines_append",
             "Cxx.C11_keep_doxygen", "Cxx.keep_doxygen_eq"]
 ANCHORS = ["lexer.py:LexerTokenStream", "lexer.py:TokenStream", "lexer.py:<module>", "parser.py:CxxParser.parse", "parser.py:CxxParser._parse_enumerator_list",
            "parser.py:CxxParser._parse_field", "parser.py:CxxParser._parse_declarations", "parser.py:CxxParser._parse_decl", "parser.py:CxxParser._parse_function",
@@ -21,12 +22,12 @@ RULE = ("programs in which every declaration of every documentable kind (variabl
 CARRIED_BY = {
     "which comments a get_doxygen scan returns (those after the last NEWLINE token before the next significant token); nothing is pushed back": "theorems C11_doxScan_partition, C11_doxScan_comments_after_last_newline",
     "the trailing scan only removes comment tokens of the current line": "theorem C11_doxAfter_partition",
-    "non-documentation comments contribute no text": "theorem C11_extract_none_without_doc",
+    "non-documentation comments contribute no text; every doc comment of a block contributes its lines, in order": "theorems C11_extract_none_without_doc, C11_extract_lines_append",
     "hand-over in the main loop (consumed by the next item unless it is an attribute)": "theorem C11_keep_doxygen (regenerated set) + correspondence `parse[doxygen]`",
     "attachment per declaration kind": "correspondence `parse[doxygen]` + oracle `attachment` (not proof)",
 }
 ASSUMPTIONS = ["DocTidy: LF line ends, no blanks after a block doc comment, no plain comment between a declaration and its line end "
-               "followed by a continuation doc line, doc blocks do not mix `///` lines before a `/** */` (known findings C11-*)"]
+               "followed by a continuation doc line (known findings C11-*)"]
 MODEL_COVERAGE = "get_doxygen / get_doxygen_after / _extract_comments (TokStream.lean), main-loop hand-over (Parser/Decl.lean)"
 
 ABOVE_STYLES = [
@@ -36,6 +37,8 @@ ABOVE_STYLES = [
     lambda w: ("/*! %s */\n" % w, "/*! %s */" % w),
     lambda w: ("/// %s\n/// more %s\n" % (w, w), "/// %s\n/// more %s" % (w, w)),
     lambda w: ("/**\n * %s\n * line2\n */\n" % w, "/**\n* %s\n* line2\n*/" % w),
+    lambda w: ("/// %s\n/** more %s */\n" % (w, w), "/// %s\n/** more %s */" % (w, w)),
+    lambda w: ("/** %s */\n/*! more %s */\n//! end %s\n" % (w, w, w), "/** %s */\n/*! more %s */\n//! end %s" % (w, w, w)),
 ]
 TRAIL_STYLES = [
     lambda w: (" ///< %s" % w, "///< %s" % w),
@@ -292,7 +295,6 @@ WITNESSES = {
     "C11-trailing-blank": _w("/** A */ \nint x;", lambda d: d.namespace.variables[0].doxygen != "/** A */"),
     "C11-plain-then-continuation": _w("int x; // plain\n///< t2\nint y;", lambda d: d.namespace.variables[0].doxygen is not None),
     "C11-later-declarator": _w("/// A\nint x, y; ///< t\n", lambda d: d.namespace.variables[1].doxygen is not None),
-    "C11-mixed-block": _w("/// A\n/** B */\nint x;", lambda d: "A" not in (d.namespace.variables[0].doxygen or "")),
 }
 
 
